@@ -20,7 +20,7 @@ import serial_common as sc
 
 
 def run(ck):
-    harness, model = sc.build()
+    harness, model = sc.build(ck)
     ck.add_proof(vv.prove("Properties_C12", set()))
     ck.add_proof(vv.prove("Refuted_C12", set()))
     ck.trusted += sc.TRUSTED
